@@ -34,7 +34,8 @@ META = {
     "design_ref": "DESIGN.md §3.5, §5 C20",
     "level_text": "explicit-state model checking of Containers.tla / Dnf.tla plus trace validation of the implementation",
     "level_note": "bounded: history length and alphabet per container as listed in coverage.rule; formulas exhaustive "
-                  "to operator depth 2 over 4 atoms, sampled beyond",
+                  "to operator depth 2 over 4 atoms, sampled beyond; a wrong `no' of dnfImplies/dnfEqual counts as the recorded "
+                  "incompleteness only on operands that DnfImpl.tla (dnf.c as pinned) builds and where the modelled test says no too",
 }
 
 WRAP = ("-Wl,--wrap=stoAlloc", "-Wl,--wrap=stoFree", "-Wl,--wrap=stoResize")
